@@ -52,3 +52,10 @@ Theorem C05_source_write_sites :
     40 <= length (gen_view2d_write_sites f0 s0 f1 s1 N i j).
 Proof. exact gen_view2d_write_sites_ok. Qed.
 Print Assumptions C05_source_write_sites.
+
+(** the same for the compile-time 2-D view class and the dynamic 1-D view class *)
+Theorem C05_source_write_sites_fixed2d_and_1d :
+  forall F0 S0 F1 S1 N f s i j : Z,
+    (Forall (site_ok F0 S0 F1 S1 N i j) (gen_fixedview2d_write_sites F0 S0 F1 S1 N i j) /\ 40 <= length (gen_fixedview2d_write_sites F0 S0 F1 S1 N i j)) /\
+    (Forall (site1d_ok f s i j) (gen_view1d_write_sites f s i j) /\ 30 <= length (gen_view1d_write_sites f s i j)).
+Proof. intros. exact (conj (gen_fixedview2d_write_sites_ok F0 S0 F1 S1 N i j) (gen_view1d_write_sites_ok f s i j)). Qed.
